@@ -1135,6 +1135,109 @@ def multicall_stream(chk):
     return n, hits
 
 
+def _mc_res(r):
+    return 'Val %d' % r[1] if r[0] == 'val' else 'Flt %d' % r[1]
+
+
+def _mc_beh(b):
+    return 'Imm (%s)' % _mc_res(b[1]) if b[0] == 'imm' else 'Defer %d%%nat (%s)' % (b[1], _mc_res(b[2]))
+
+
+def run_multicall(behs, npolls):
+    """The real SystemNamespaceRPCInterface.multicall over a scripted namespace: call k answers at once or hands back a
+    callback that says NOT_DONE_YET a given number of times; ('exn', 30) stands for an exception that is no RPCError
+    (reported as fault FAILED).  Returns (events, answer) after multicall() and at most npolls polls of the envelope."""
+    from supervisor.xmlrpc import SystemNamespaceRPCInterface, RPCError
+    from supervisor.http import NOT_DONE_YET
+    events = []
+
+    def give(k, r):
+        events.append(('done', k, (r[0] if r[0] != 'exn' else 'flt', r[1])))
+        if r[0] == 'val':
+            return r[1]
+        if r[0] == 'flt':
+            raise RPCError(r[1])
+        raise KeyError('scripted')
+
+    class NS(object):
+        def call(self, k):
+            events.append(('invoke', k))
+            b = behs[k]
+            if b[0] == 'imm':
+                return give(k, b[1])
+            left = [b[1]]
+
+            def cb():
+                if left[0] > 0:
+                    left[0] -= 1
+                    return NOT_DONE_YET
+                return give(k, b[2])
+            return cb
+    iface = SystemNamespaceRPCInterface([('t', NS())])
+    v = iface.multicall([{'methodName': 't.call', 'params': [k]} for k in range(len(behs))])
+    for _ in range(npolls):
+        if not callable(v):
+            break
+        w = v()
+        if w is not NOT_DONE_YET:
+            v = w
+    if callable(v):
+        return events, None
+    out = []
+    for x in v:
+        if isinstance(x, dict) and 'faultCode' in x:
+            out.append(('flt', x['faultCode']))
+        else:
+            out.append(('val', x))
+    return events, out
+
+
+def multicall_corr(chk, wd):
+    """Model <-> code for system.multicall (coq/Life/Multicall.v, theorems in MulticallProofs.v): every list of up to
+    three calls over seven behaviours and every number of polls up to two more than needed, then random longer lists;
+    events (invoke / answered, in order) and the envelope's answer are compared inside Coq."""
+    import itertools
+    B = [('imm', ('val', 1)), ('imm', ('flt', 10)), ('imm', ('exn', 30)), ('defer', 0, ('val', 2)), ('defer', 1, ('val', 3)),
+         ('defer', 2, ('flt', 70)), ('defer', 1, ('exn', 30))]
+    lists = [[]]
+    for n in (1, 2, 3):
+        lists += [list(t) for t in itertools.product(B, repeat=n)]
+    for _ in range(200 if chk.tier == 'quick' else 3000):
+        lists.append([chk.rng.choice(B + [('defer', chk.rng.randrange(0, 6), ('val', chk.rng.randrange(0, 50)))])
+                      for _k in range(chk.rng.randrange(4, 10))])
+    cases, kept = [], []
+    for behs in lists:
+        need = sum(b[1] + 1 for b in behs if b[0] == 'defer')
+        polls = range(0, need + 3) if len(behs) <= 3 else [chk.rng.randrange(0, need + 2), need]
+        for n in polls:
+            try:
+                ev, ans = run_multicall(behs, n)
+            except BaseException as e:      # noqa: an exception out of multicall itself is a verdict
+                chk.violation({'kind': 'system.multicall raised', 'calls': behs, 'polls': n, 'error': repr(e)})
+                return len(cases), 1
+            tr = '[' + '; '.join('Invoke %d%%nat' % e[1] if e[0] == 'invoke' else 'Done %d%%nat (%s)' % (e[1], _mc_res(e[2]))
+                                 for e in ev) + ']'
+            a = 'None' if ans is None else 'Some [' + '; '.join(_mc_res(r) for r in ans) + ']'
+            cases.append('([%s], %d%%nat, %s, %s)' % ('; '.join(_mc_beh(_exn_as_flt(b)) for b in behs), n, tr, a))
+            kept.append((behs, n, ev, ans))
+    bad, errs = vlib.coq_compare(['SV.Life.Multicall'], 'mcase', 'check_mcase', cases, wd, shard=500, tag='mcall')
+    for e in errs[:2]:
+        chk.violation({'kind': 'model evaluation failed (multicall)', 'error': e}, nofail=True)
+    for i in bad[:3]:
+        behs, n, ev, ans = kept[i]
+        chk.violation({'kind': 'system.multicall: model and implementation disagree',
+                       'calls': behs, 'polls_after_multicall': n, 'implementation_events': ev, 'implementation_answer': ans,
+                       'explanation': 'a multicall is a sequence of requests: call k+1 is invoked when call k has answered '
+                                      '(theorems c13_multicall_*); the real SystemNamespaceRPCInterface.multicall over a '
+                                      'scripted namespace did something else'})
+    return len(cases), len(bad)
+
+
+def _exn_as_flt(b):
+    fix = lambda r: ('flt', r[1]) if r[0] == 'exn' else r
+    return ('imm', fix(b[1])) if b[0] == 'imm' else ('defer', b[1], fix(b[2]))
+
+
 def dynamic_script(rng, U=2):
     """Groups added by RPC at run time, then a shutdown/restart: outside the Coq model (static group set), judged by
     the monitors only (C05 order, exit condition, no fork after the request)."""
@@ -1421,6 +1524,10 @@ def _run(chk, which, prop_rel, proved, wd):
         nm, hm = multicall_stream(chk)
         nh += nm
         monitor_hits += hm
+        nc, bc = multicall_corr(chk, wd)
+        nh += nc
+        monitor_hits += bc
+        chk.coverage['multicall_model_cases'] = nc
     if which in ('C05', 'C02'):
         nd, hd = dynamic_stream(chk)
         nh += nd
